@@ -11,6 +11,7 @@
 #include <cstdio>
 #include <cstdlib>
 #include <cstring>
+#include <filesystem>
 #include <fstream>
 #include <functional>
 #include <map>
@@ -341,6 +342,26 @@ private:
     uint64_t                              m_sample_seen     = 0;
     uint64_t                              m_violation_count = 0;
 };
+
+// ---------------------------------------------------------------------------------------------
+/// libnano's model fitting writes one log file per (trial, fold) into $TMPDIR: harnesses that fit or tune inside a
+/// loop call this regularly, otherwise millions of small files exhaust the file system's inodes
+inline void purge_tmpdir()
+{
+    const char* dir = std::getenv("TMPDIR");
+    if (dir == nullptr || *dir == 0 || std::string(dir) == "/tmp")
+    {
+        return;
+    }
+    std::error_code ec;
+    for (const auto& entry : std::filesystem::directory_iterator(dir, ec))
+    {
+        if (entry.path().extension() == ".log")
+        {
+            std::filesystem::remove(entry.path(), ec);
+        }
+    }
+}
 
 // ---------------------------------------------------------------------------------------------
 // E3: odometer over named finite axes with a stable mixed-radix case number.
